@@ -380,7 +380,7 @@ class BlockCode(BlockToken):
         for line in lines:
             if line.strip() == '':
                 line_buffer.append(line.lstrip(' ') if len(line) < 5 else line[4:])
-                trailing_blanks = trailing_blanks + 1 if line == '\n' else 0
+                trailing_blanks += 1
                 continue
             if not line.replace('\t', '    ', 1).startswith('    '):
                 lines.backstep()
